@@ -247,12 +247,14 @@ def decompose_and_order(graph, component, component_name, bo_start=0):
             scaffold_graph.add_edge(node1, "+", node2, "+", 0)
 
         else:
-            bubble_index = len(bubbles)
+            # the node standing for the bubble must not be mistaken for a segment: segments may be
+            # called "0", "1", ..., but a tab cannot occur in a segment name (int() ignores it)
+            bubble_node = "\t" + str(len(bubbles))
             bubbles.append(bc_inside_nodes)
-            scaffold_graph.add_node(str(bubble_index))
-            scaffold_node_types[str(bubble_index)] = "b"
+            scaffold_graph.add_node(bubble_node)
+            scaffold_node_types[bubble_node] = "b"
             for end_node in bc_end_nodes:
-                scaffold_graph.add_edge(str(bubble_index), "+", end_node, "+", 0)
+                scaffold_graph.add_edge(bubble_node, "+", end_node, "+", 0)
 
     logger.info(f"  Bubbles: {len(bubbles)}")
     logger.info(f"  Scaffold graph: {len(scaffold_graph)} nodes")
